@@ -296,6 +296,9 @@ impl<'a> P<'a> {
                         b'b' => out.push(8),
                         b'f' => out.push(12),
                         b'u' => {
+                            if self.i + 4 > self.b.len() {
+                                return Err("truncated \\u escape".into());
+                            }
                             let h = std::str::from_utf8(&self.b[self.i..self.i + 4])
                                 .map_err(|e| e.to_string())?;
                             let cp = u32::from_str_radix(h, 16).map_err(|e| e.to_string())?;
